@@ -196,6 +196,39 @@ func evalC16(c *Ctx, cs EnumCase) EnumResult {
 			}
 		}
 	}
+	// a graceful shutdown that arrives while a compaction is running: at every file-system call of every compaction a
+	// shutdown (SLock.Close) is started in another thread; once it has finished the directory must recover like the
+	// prefix of the history executed so far logged without compaction
+	shut := 0
+	if a.Hist <= 2 {
+		np := 0
+		for _, p := range cap.PointAt {
+			if isCompactionPoint(p) {
+				np++
+			}
+		}
+		for j := 0; j < np; j++ {
+			inj := &captureInject{AtPoint: j, Shutdown: true}
+			ci := runCaptureInject(cfg, h, false, inj)
+			if inj.OpIndex < 0 {
+				continue
+			}
+			res.Sub++
+			shut++
+			if ci.Err != "" {
+				vs = append(vs, explore.Violation{Sig: "C16:shutdown-during-compaction-hangs", Msg: fmt.Sprintf("history %d, graceful shutdown started during compaction file-system call #%d: %s", a.Hist, j, ci.Err)})
+				continue
+			}
+			ref := runCapture(big, h[:inj.OpIndex+1], false)
+			ri := recoverImage(cfg, ci.Final, ci.EndT, false)
+			rr := recoverImage(big, ref.Final, ci.EndT, false)
+			if ri.StartErr != "" || ri.Crash != "" {
+				vs = append(vs, explore.Violation{Sig: "C16:start-failed-after-shutdown-during-compaction", Msg: fmt.Sprintf("history %d, graceful shutdown started during compaction file-system call #%d: the next start fails: %s %s", a.Hist, j, ri.StartErr, ri.Crash)})
+			} else if ri.State != rr.State {
+				vs = append(vs, explore.Violation{Sig: "C16:shutdown-during-compaction-changes-state", Msg: fmt.Sprintf("history %d, graceful shutdown started while compaction file-system call #%d was being made: the directory recovers [%s]; the same requests logged without compaction recover [%s]", a.Hist, j, strings.ReplaceAll(ri.State, "\n", " / "), strings.ReplaceAll(rr.State, "\n", " / "))})
+			}
+		}
+	}
 	res.Viol = dedupe(vs)
 	res.SubNT = len(distinct)
 	res.Nontrivial = true
